@@ -218,6 +218,8 @@ def hash_none_stream(ctx):
 
 def run(ctx):
     rng = ctx.rng
+    from props import cli_proc
+    cli_proc.stream(ctx, ['C01-header', 'C01-whole'])
     hash_none_stream(ctx)
     cj = corpus()
     for job, res in zip(cj, pipe.run_jobs(cj)):
@@ -231,6 +233,9 @@ def run(ctx):
 
 
 def replay_case(ctx, case):
+    if case.get('kind') == 'cli-process':
+        from props import cli_proc
+        return cli_proc.replay(case)
     if case.get('stream') == 'hash-none':
         sub = common_ctx_like(ctx)
         hash_none_stream(sub)
@@ -253,7 +258,7 @@ def replay_case(ctx, case):
 
 
 def shrink(ctx, case):
-    if case.get('stream') == 'hash-none':
+    if case.get('stream') == 'hash-none' or case.get('kind') == 'cli-process':
         return case
     def bad(c):
         r = pipe.run_jobs([c])[0]
